@@ -9,6 +9,9 @@ mkdir -p $V/build $V/evidence $V/replays
 JOBS=${VERIF_JOBS:-16}
 fail() { echo "ERROR build: $*" >&2; exit 2; }
 
+# files an agent is still writing (one path per line, relative to coq/): not part of the build yet
+wip() { [ -f $V/coq/WIP ] && grep -v '^#' $V/coq/WIP || true; }
+
 lint() {
   # forbidden constructs anywhere in the development (comments excluded crudely by pattern choice)
   if grep -rnE '\b(Admitted|admit|Axiom|Axioms|Parameter|Parameters|Conjecture|Conjectures)\b|Unset Guard|bypass_check|Admit Obligations|type-in-type|impredicative-set|Unset Universe Checking|Unset Positivity' \
@@ -34,7 +37,7 @@ PY
 project() {
   cd $V/coq
   ( flock 9
-    { echo "-Q theories Phil"; find theories -name '*.v' ! -path 'theories/Extraction/*' | sort; } > _CoqProject.new
+    { echo "-Q theories Phil"; find theories -name '*.v' ! -path 'theories/Extraction/*' | sort | grep -vxFf <(wip) ; } > _CoqProject.new
     if ! cmp -s _CoqProject.new _CoqProject 2>/dev/null || [ ! -f Makefile ]; then
       mv _CoqProject.new _CoqProject; coq_makefile -f _CoqProject -o Makefile >/dev/null || fail coq_makefile
     else rm _CoqProject.new; fi
